@@ -12,7 +12,8 @@ THEOREMS = ["C03_pick_sound", "C03_pick_complete", "C03_contacted_is_picked", "C
             "C03_disabled_no_new_probe", "C03_disabled_no_probe_at_all",
             "C03_disabled_no_probe_at_all_refuted_before_fix", "C03_macro_is_schedule"]
 EVAL = "C03_Check.eval"
-CLAUSES = ["agree", "pick_sound", "pick_complete", "contacted_is_picked", "disabled_no_traffic", "disabled_no_probe"]
+CLAUSES = ["agree", "pick_sound", "pick_complete", "contacted_is_picked", "disabled_no_traffic", "disabled_no_probe",
+           "removed_no_probe"]
 RULE = ("distinct op lists that contain a spec change after the first sync, at least one pick/request that returned an "
         "endpoint, at least one pick/request made while some server was disabled or unhealthy, and at least one probe answer")
 TRUSTED_BASE = [
